@@ -109,7 +109,6 @@ void World::opIO(const Step &s)
 {
     cur_family = "io";
     int fi = pickForest(s.a[0], [&](const ForRT &F) {
-        if (F.kind() == FK_IDX) return false;
         for (const EdgeSlot* e : edges) if (e->forest >= 0 && &forests[e->forest] == &F) return true;
         return false;
     });
